@@ -1,1 +1,2 @@
 import AwsVerif.Props.C15
+import AwsVerif.Props.C16
